@@ -4,6 +4,7 @@ package main
 // model-independent oracle.
 
 import (
+	"encoding/json"
 	"fmt"
 	"github.com/ovn-org/libovsdb/ovsdb"
 	"math/rand"
@@ -260,6 +261,31 @@ func c10Rows(r *Run, n int) {
 				r.Count("row-update:large-collection")
 				continue
 			}
+			if (c.Type.Key == "real" || c.Type.Val == "real") && c.Type.Kind != "atom" && r.Rng.Intn(3) == 0 {
+				// a whole real too large to be written with a fraction joins the collection (on the wire it is a
+				// string of digits)
+				big := AR([]float64{1e16, 1 << 54, -1e17, 9007199254740994}[r.Rng.Intn(4)])
+				nv := cloneValue(a[c.Name])
+				switch {
+				case nv.K == 'S' && (c.Type.Max < 0 || len(nv.S) < c.Type.Max) && !setHas(nv.S, big):
+					nv.S = append(nv.S, big)
+				case nv.K == 'o':
+					nv.O = &big
+				case nv.K == 'M' && c.Type.Val == "real" && len(nv.M) > 0:
+					nv.M[0][1] = big
+				case nv.K == 'M' && c.Type.Key == "real" && (c.Type.Max < 0 || len(nv.M) < c.Type.Max):
+					if _, has := mapGet(nv.M, big); !has {
+						nv.M = append(nv.M, [2]Atom{big, genAtom(r.Rng, c.Type.Val)})
+					}
+				}
+				upd[c.Name] = nativeToOvsValue(nv)
+				b[c.Name] = nv
+				if nv.Canon() != a[c.Name].Canon() {
+					changed++
+				}
+				r.Count("row-update:big-real")
+				continue
+			}
 			switch r.Rng.Intn(3) {
 			case 0: // repeated unchanged
 				upd[c.Name] = nativeToOvsValue(cloneValue(a[c.Name]))
@@ -313,6 +339,20 @@ func c10Rows(r *Run, n int) {
 			n1, modify = mu.New.Row, mu.RU2.Modify
 			u2 := updates.ModelUpdates{}
 			mod := rowToOvs(modify)
+			if i%2 == 0 {
+				// the difference as the other side gets it: written to the wire and read back
+				text, err := json.Marshal(mod)
+				var back ovsdb.Row
+				if err == nil {
+					err = json.Unmarshal(text, &back)
+				}
+				if err != nil {
+					failure = "the modify row does not survive the wire: " + err.Error()
+					return
+				}
+				mod = back
+				cs["modify_on_the_wire"] = string(text)
+			}
 			cur2 := db.NewModel("T", uuid, a)
 			if err := u2.AddRowUpdate2(db.Model, "T", uuid, cur2, ovsdb.RowUpdate2{Modify: &mod}); err != nil {
 				failure = "AddRowUpdate2: " + err.Error()
